@@ -872,22 +872,36 @@ def keyed_writes(res, base_pred=lambda b: True):
     return out
 
 
-def opaque(t) -> bool:
+def _known_functions():
+    from .known_functions import KNOWN_FUNCTIONS
+    return KNOWN_FUNCTIONS
+
+
+def opaque(t, transparent=()) -> bool:
     """the value passes through something this analysis does not read: an
     unknown name / generator, a library iterator adaptor (itertools.starmap,
     compress, islice ...), a function object taken from a table, a call to a
     function or class of the program that was not looked through, a lookup
     in a table that does not fold.  A rule that fails on such a value has no
-    evidence of a deviation."""
+    evidence of a deviation.  `transparent`: anchor terms the rule knows (the
+    id-pair list ...), read as leaves."""
     if not isinstance(t, T):
         return False
+    skip = {id(y) for k in transparent if isinstance(k, T)
+            for y in k.walk()}
     for x in t.walk():
+        if id(x) in skip:
+            continue
         if x.op == "unknown":
             return True
         if x.op == "call":
             n = tm.callee_name(x) or ""
             if n.startswith(("itertools.", "functools.", "operator.")):
                 return True
+            if x.args[0].op == "func" and n.startswith(
+                    "evo.core.lie_algebra.") and n in _known_functions():
+                continue     # the Lie-group helpers of the pinned tree: what
+                #              they compute is known to the rules
             if x.args[0].op in ("func", "cls", "bound", "closure", "call",
                                 "sub", "elem", "ite", "loopvar", "loopout"):
                 return True
